@@ -1,6 +1,6 @@
 (* Props/C11.v — Token positions are exact UTF-16 coordinates of their lexemes.
    Statements only: each theorem is closed by `exact` of a lemma proved in
-   Lex/LangLexerProofs.v, Text/ReaderProofs.v, Text/ReaderInv.v or Lex/C11Examples.v,
+   Lex/LangLexerProofs.v, Lex/LangLexerRelex*.v, Text/ReaderProofs.v, Text/ReaderInv.v or Lex/C11Examples.v,
    pinned by `Check`, and followed by `Print Assumptions`.
 
    Model: RH.Text.Reader (ContentReader), RH.Lex.LangLexer (Tokenizer + TokenStream::new),
@@ -9,7 +9,7 @@
 From Coq Require Import List NArith Arith Bool.
 Import ListNotations.
 From RH Require Import Text.Contents Text.ContentsProofs Text.Reader Text.ReaderProofs Text.ReaderInv
-  Lex.LangLexer Lex.LexSpec Lex.LangLexerProofs Lex.LangLexerSlices Lex.LangLexerNoCrash Lex.LangLexerComments Lex.LangLexerText Lex.LangLexerRelex Lex.C11Examples.
+  Lex.LangLexer Lex.LexSpec Lex.LangLexerProofs Lex.LangLexerSlices Lex.LangLexerNoCrash Lex.LangLexerComments Lex.LangLexerText Lex.LangLexerRelex Lex.LangLexerRelex4 Lex.C11Examples.
 Open Scope N_scope.
 
 (* (a) The tokenizer terminates on every input (regression theorem of finding F5): with fuel
@@ -108,21 +108,82 @@ Proof. exact token_text_exact. Qed.
 Theorem C11_token_slices_consumed : forall s toks diags,
   lex_all s = Done toks diags -> Forall (tok_slice s) toks.
 Proof. exact token_slices_consumed. Qed.
-(* (e) relex — proved for delimiter tokens and character literals (relex_partial); for the other
-   kinds it is explored on every run by the implementation-level oracle of the harness
-   (checks/c11.py) and tied to the model by the differential run.  Full statement:
-     relex : forall s toks diags, lex_all s = Done toks diags ->
-        Forall (fun t => relex_prop t (slice_of_text s (t_s t) (t_e t))) toks.
-   What is missing: a simulation between the reader on the whole document and the reader on the
-   one-lexeme document (the tokenizer looks one character ahead; identifiers, literals and strings
-   need it for arbitrary lengths).  The statement was false before commit 10bee32
-   (C11_relex_old_refuted below). *)
+(* (e) relex: re-lexing the slice of a token alone yields exactly one token with the same kind and the
+   same value.  Proved for every token of the stream (C11_relex), without side condition on the
+   token or its context: each arm of parse_token, run on exactly the characters it consumed followed
+   by the end of the input, returns the same (kind, value, warning) — the tokenizer inspects at most
+   the one character that follows a lexeme, and the end of the input behaves like any character that
+   does not continue the lexeme (Lex/LangLexerRelex2.v, 3, 4).  The statement was false before commit
+   10bee32 (C11_relex_old_refuted below).
+   C11_relex_partial (delimiters and character literals, by finite evaluation) is kept; the other
+   kinds are C11_relex_identifier (basic and extended identifiers, keywords), C11_relex_string,
+   C11_relex_bit_string (all base specifiers, with and without a length) and
+   C11_relex_abstract_literal (integers with exponent, reals, based literals). *)
 Theorem C11_relex_partial : forall s toks diags, lex_all s = Done toks diags ->
   Forall (fun t =>
     ((t_val t = VNone /\ In (t_kind t) delim_kinds) \/
      (t_kind t = KCharacter /\ exists c, t_val t = VChar c /\ c < 256 /\ c <> 13)) ->
     relex_prop t (slice_of_text s (t_s t) (t_e t))) toks.
 Proof. exact relex_partial. Qed.
+Theorem C11_relex_identifier : forall s toks diags, lex_all s = Done toks diags ->
+  Forall (fun t => (t_kind t = KIdentifier \/ exists n, t_kind t = KKw n) ->
+                   relex_prop t (slice_of_text s (t_s t) (t_e t))) toks.
+Proof. exact relex_identifier. Qed.
+Theorem C11_relex_string : forall s toks diags, lex_all s = Done toks diags ->
+  Forall (fun t => t_kind t = KStringLiteral -> relex_prop t (slice_of_text s (t_s t) (t_e t))) toks.
+Proof. exact relex_string. Qed.
+Theorem C11_relex_bit_string : forall s toks diags, lex_all s = Done toks diags ->
+  Forall (fun t => t_kind t = KBitString -> relex_prop t (slice_of_text s (t_s t) (t_e t))) toks.
+Proof. exact relex_bit_string. Qed.
+Theorem C11_relex_abstract_literal : forall s toks diags, lex_all s = Done toks diags ->
+  Forall (fun t => t_kind t = KAbstractLiteral -> relex_prop t (slice_of_text s (t_s t) (t_e t))) toks.
+Proof. exact relex_abstract_literal. Qed.
+(* all five literal/identifier kinds at once, for any keyword table and any sufficient fuel; relex_gen
+   also names the diagnostics of the re-lexing: `warn_diag w t'` is empty unless w is the warning of a
+   basic identifier that violates the identifier rules *)
+Theorem C11_relex_lit_gen : forall kws fuel s toks diags, lex_gen kws true fuel s = Done toks diags ->
+  Forall (fun t => lit_kind (t_kind t) = true -> relex_gen kws t (slice_of_text s (t_s t) (t_e t))) toks.
+Proof. exact relex_lit_gen. Qed.
+(* every token of the stream is of one of the three classes covered *)
+Theorem C11_tokens_classified : forall s toks diags, lex_all s = Done toks diags -> Forall tok_class toks.
+Proof. exact tokens_classified. Qed.
+(* the full statement *)
+Theorem C11_relex : forall s toks diags, lex_all s = Done toks diags ->
+  Forall (fun t => relex_prop t (slice_of_text s (t_s t) (t_e t))) toks.
+Proof. exact relex. Qed.
+(* the mechanism: a literal/identifier/keyword token produced by parse_token from st consumed b :: l,
+   and on every canonical buffer d' in which b :: l is followed by the end of the input parse_token
+   returns the same kind, value and warning (any start position, any previous token kind, any fuel > |l|) *)
+Theorem C11_parse_token_stops_at_eof : forall d kws F start last st k v w st2, Forall lf_last d -> RInv d st ->
+  parse_token d kws F true start last st = (Ok (Some (k, v, w)), st2) -> lit_kind k = true ->
+  stops_at_eof d kws st st2 k v w.
+Proof. exact parse_token_sim. Qed.
+(* re-lexing yields no diagnostic for string, bit string and abstract literals, and none for an
+   identifier or keyword whose spelling satisfies validate_basic_identifier; the side condition is
+   necessary: `a__b` re-lexes to the same identifier with the same warning *)
+Theorem C11_relex_clean_literals : forall s toks diags, lex_all s = Done toks diags ->
+  Forall (fun t => (t_kind t = KStringLiteral \/ t_kind t = KBitString \/ t_kind t = KAbstractLiteral) ->
+                   relex_clean t (slice_of_text s (t_s t) (t_e t))) toks.
+Proof. exact relex_clean_literals. Qed.
+Theorem C11_relex_clean_identifier : forall s toks diags, lex_all s = Done toks diags ->
+  Forall (fun t => (t_kind t = KIdentifier \/ exists n, t_kind t = KKw n) ->
+                   validate_basic_identifier (slice_of_text s (t_s t) (t_e t)) = None ->
+                   relex_clean t (slice_of_text s (t_s t) (t_e t))) toks.
+Proof. exact relex_clean_identifier. Qed.
+Example C11_relex_identifier_warning :
+  let s := [97; 95; 95; 98] in
+  exists t, lex_all s = Done [t] [TErr (0, 0) (0, 4) 18] /\ t_kind t = KIdentifier /\
+            slice_of_text s (t_s t) (t_e t) = s /\ validate_basic_identifier s = Some 18.
+Proof. exact relex_identifier_warning. Qed.
+(* non-vacuity: eleven tokens of all the literal kinds (a real whose integer part overflows u64
+   included), no diagnostic, each re-lexes from its slice *)
+Example C11_relex_example :
+  exists toks, lex_all relex_example_text = Done toks [] /\
+    map t_kind toks = [KIdentifier; KKw [101; 110; 116; 105; 116; 121]; KBitString; KIdentifier; KStringLiteral;
+                       KAbstractLiteral; KAbstractLiteral; KAbstractLiteral; KAbstractLiteral; KBitString; KAbstractLiteral] /\
+    Forall (fun t => lit_kind (t_kind t) = true) toks /\
+    Forall (fun t => relex_prop t (slice_of_text relex_example_text (t_s t) (t_e t))) toks.
+Proof. exact relex_example. Qed.
 
 (* (f) Files are decoded as ISO-8859-1: iso_8859_1_to_utf8 followed by UTF-8 decoding is the identity
    on code points 0..255, every character is one UTF-16 unit, so a column is a byte offset. *)
@@ -163,6 +224,8 @@ Check C11_lex_all_done : forall s, exists toks diags, lex_all s = Done toks diag
 Check C11_token_text_exact : forall s toks diags, lex_all s = Done toks diags ->
   Forall (fun t => lexeme_ok t (slice_of_text s (t_s t) (t_e t)) = true) toks.
 Check C11_token_ranges_ordered : forall s toks diags, lex_all s = Done toks diags -> ranges_sorted (0, 0) toks.
+Check C11_relex : forall s toks diags, lex_all s = Done toks diags ->
+  Forall (fun t => relex_prop t (slice_of_text s (t_s t) (t_e t))) toks.
 
 Print Assumptions C11_lex_total.
 Print Assumptions C11_lex_total_gen.
@@ -183,6 +246,18 @@ Print Assumptions C11_comments_between.
 Print Assumptions C11_token_text_exact.
 Print Assumptions C11_token_slices_consumed.
 Print Assumptions C11_relex_partial.
+Print Assumptions C11_relex_identifier.
+Print Assumptions C11_relex_string.
+Print Assumptions C11_relex_bit_string.
+Print Assumptions C11_relex_abstract_literal.
+Print Assumptions C11_relex_lit_gen.
+Print Assumptions C11_tokens_classified.
+Print Assumptions C11_relex.
+Print Assumptions C11_parse_token_stops_at_eof.
+Print Assumptions C11_relex_clean_literals.
+Print Assumptions C11_relex_clean_identifier.
+Print Assumptions C11_relex_identifier_warning.
+Print Assumptions C11_relex_example.
 Print Assumptions C11_decode_latin1_id.
 Print Assumptions C11_latin1_columns.
 Print Assumptions C11_token_ranges_ordered.
